@@ -148,12 +148,15 @@ def report(prop, tier, seed, results, known, assumed, t0, verbose):
                 failing.setdefault(o["name"], []).append(o)
         if not failing:
             continue
-        reproduced = [x for x in r["refutations"] if x.get("replay", {}).get("reproduced")]
+        refs = [x for x in r["refutations"] if "obligation" in x]
+        reproduced = [x for x in refs if x["replay"].get("reproduced")]
         for name, obs in failing.items():
-            status = "failed" if any(o["status"] == "failed" for o in obs) else "unknown"
+            sat_proof = any(o["status"] == "failed" for o in obs)
+            mine = [x for x in refs if x["obligation"] == name]
             rep = next((x for x in reproduced if x["obligation"] == name), None) or (reproduced[0] if reproduced else None)
             fn = os.path.join(ROOT, "replays", prop, (name + ".json").replace("/", "_"))
-            doc = {"property": prop, "function": r["key"], "obligation": name, "status": status,
+            doc = {"property": prop, "function": r["key"], "obligation": name,
+                   "status": "refuted" if (sat_proof or mine) else "unknown",
                    "verifier_output": [{k: o[k] for k in ("path", "status", "backend", "detail", "line", "model")} for o in obs[:3]],
                    "refutation_search": r["refutations"][:6]}
             if rep is not None:
@@ -161,9 +164,17 @@ def report(prop, tier, seed, results, known, assumed, t0, verbose):
                 doc["native_replay"] = rep["replay"]
                 json.dump(doc, open(fn, "w"), indent=1, default=str)
                 violations.append((name, fn, True))
-            elif status == "failed":
-                json.dump(doc, open(fn, "w"), indent=1, default=str)
-                violations.append((name, fn, False))
+            elif sat_proof or mine:
+                # a counter-model exists (full VC, or the small-scope grounded VC); it counts unless the native
+                # replay positively showed the real code behaving on that input
+                denied = [x for x in mine if x["replay"].get("reproduced") is False]
+                if mine and len(denied) == len(mine) and not sat_proof:
+                    undecided.append((name, "counter-model of the grounded VC does not reproduce natively"))
+                elif denied and sat_proof and len(denied) == len(mine):
+                    undecided.append((name, "counter-model does not reproduce natively (weak callee contract or invariant?)"))
+                else:
+                    json.dump(doc, open(fn, "w"), indent=1, default=str)
+                    violations.append((name, fn, False))
             else:
                 undecided.append((name, obs[0]["detail"]))
     wall = round(time.time() - t0, 2)
